@@ -309,6 +309,27 @@ Theorem C11_binary_hill_boundary_accepted :
 Proof. exact bias_hill_boundary. Qed.
 Print Assumptions C11_binary_hill_boundary_accepted.
 
+(* Whole binary states: magic number, global block, the variables' records, the bias objects without data and
+   possibly a last bias object with a list of hills (the order of the module's lists puts metadynamics last).
+   The data end anywhere after the global block and before the end of the state (p is a proper prefix of what
+   follows the global block): the load reports an error -- except when the data end exactly between two hills
+   of that last bias (C11_binary_hill_boundary_accepted: the format cannot tell).  This composes the record
+   theorems over read_objects_state(memory_stream &). *)
+Theorem C11_binary_state_cut_is_error :
+  forall (cv_ok : list byte -> bool) (matches : bbias -> list byte -> option bool) (params_ok : bbias -> list byte -> bool)
+         (gconf : list byte) (datas : list (list byte)) (xs : list bobj) (last : option bobj) (p q : list byte),
+  item_ok (IStr gconf) -> Forall (cv_data_ok cv_ok) datas ->
+  Forall (obj_ok matches params_ok) xs -> Forall plain xs ->
+  match last with Some x => obj_ok matches params_ok x /\ bb_kind (o_b x) = 1%nat | None => True end ->
+  concat (map cv_enc datas) ++ concat (map benc xs) ++ match last with Some x => benc x | None => [] end = p ++ q ->
+  q <> [] -> blen (magic ++ genc gconf ++ p) < W64 ->
+  (forall x k, last = Some x ->
+     p <> concat (map cv_enc datas) ++ concat (map benc xs) ++ enc_header (o_kwd x) (o_conf x) ++ enc_hills (firstn k (o_hs x))) ->
+  load_bin cv_ok matches params_ok (length datas)
+           (map o_b xs ++ match last with Some x => [o_b x] | None => [] end) (magic ++ genc gconf ++ p) = true.
+Proof. exact binary_state_cut. Qed.
+Print Assumptions C11_binary_state_cut_is_error.
+
 (* non-vacuity *)
 Example C11_example_roundtrip :
   let l := [IObj [1;2;3;4]; IStr [97;98;99]; IVec 8 [[1;0;0;0;0;0;0;0]; [2;0;0;0;0;0;0;0]]; IVec 3 [[1;2;3]; [4;5;6]]] in
